@@ -193,20 +193,24 @@ func theoremClass(tab []tabEnt) string {
 		}
 		return "tie-only"
 	}
+	c := ((tab[0].off % 3600) + 3600) % 3600 // constant sub-hour part of the offsets
 	for i, e := range tab {
-		if e.off%3600 != 0 || e.off < -93600 || e.off > 93600 {
+		if ((e.off%3600)+3600)%3600 != c || c%60 != 0 || e.off < -93600 || e.off > 93600 {
 			return "tie-only"
 		}
 		if i == 0 {
 			continue
 		}
 		d := e.off - tab[i-1].off
-		if e.start%3600 != 0 || (d != 3600 && d != -3600) {
+		if (((e.start+int64(c))%3600)+3600)%3600 != 0 || (d != 3600 && d != -3600) {
 			return "tie-only"
 		}
 		if i >= 2 && tab[i-1].start+6483600 > e.start {
 			return "tie-only"
 		}
+	}
+	if c != 0 {
+		return "tie-only(shifted-hour-grid)"
 	}
 	return "hour-zone"
 }
